@@ -160,7 +160,82 @@ theorem C06_in_range_rejects (T : UType) (u : String) (hu : u ∉ T.units) (h0 :
     | nil => simp [hl] at h0
     | cons a as => simp
   simp only [UType.isInRange, if_neg hb, hn]
-  rfl
+
+/-- ORDER: every conversion between listed units is increasing (its factor is within 0.2 % of a positive
+    SI factor). -/
+theorem C06_conversion_monotone (c : Cert) (hc : c ∈ allCerts) {i j : Nat} (hi : i < c.n) (hj : j < c.n)
+    {x y : Rat} (hxy : x ≤ y) : c.T.convIdx i j x ≤ c.T.convIdx i j y :=
+  Cert.convIdx_mono c (C06_all_valid c hc) hi hj hxy
+
+/-- A limit carried to another unit: finite limits go through `f`, infinite ones stay. -/
+def mapBound (f : Rat → Rat) : Bound → Bound
+  | .fin r => .fin (f r)
+  | b => b
+
+/-- What the loop of `is_in_range` decides, for finite limits. -/
+theorem C06_range_check_fin (a b : Rat) (xs : List Rat) :
+    UType.rangeCheck (.fin a) (.fin b) xs = true ↔ ∀ x ∈ xs, a ≤ x ∧ x ≤ b := by
+  simp [UType.rangeCheck, UType.belowMin, UType.aboveMax, not_lt]
+
+/-- RANGE LIMITS IN ANOTHER UNIT (every rational base type and every subtype limits `lo`, `hi`; `u` a listed
+    unit at position `j`): `is_in_range(values, u)` runs the range loop with the limits converted from the
+    first unit to `u` by exactly the conversion `to_unit` uses for values (`convIdx 0 j`, i.e. the formula
+    `_<units[0]>_to_<u>`; the identity for `u = units[0]`); infinite limits stay infinite. -/
+theorem C06_in_range_listed (c : Cert) (hc : c ∈ allCerts) (lo hi : Bound) {u : String} {j : Nat}
+    (hj : c.T.idx? u = some j) (xs : List Rat) :
+    ({ c.T with min := lo, max := hi } : UType).isInRange xs (some u) =
+      .ok (UType.rangeCheck (mapBound (c.T.convIdx 0 j) lo) (mapBound (c.T.convIdx 0 j) hi) xs) := by
+  have h := C06_all_valid c hc
+  have hwf := h.1.1
+  obtain ⟨hb0, hn0, _, hlf, _, _, _⟩ := (UType.wf_iff c.T).1 hwf
+  have hjn : j < c.n := findIdx_lt hj
+  have hbase := UType.idx_base_iff c.T hwf hj
+  have hbu : c.T.base = c.T.units.getD 0 "" := by simp [UType.base, hb0]
+  by_cases hj0 : j = 0
+  · have hu : u = c.T.units.getD 0 "" := by rw [← hbu]; exact hbase.2 (by rw [hj0, hb0])
+    have hid : c.T.convIdx 0 j = id := by
+      funext x; simp [UType.convIdx, hj0, hb0]
+    have hm : ∀ b, mapBound id b = b := by intro b; cases b <;> rfl
+    simp only [UType.isInRange, hid, hm]
+    rw [if_pos hu]
+  · have hu : ¬ u = c.T.units.getD 0 "" := by
+      rw [← hbu]; intro e; exact hj0 (by rw [hbase.1 e, hb0])
+    have hjl : j < c.T.fromBase.length := by rw [hlf]; exact hjn
+    have hf : c.T.fromBase[j]? = some (c.T.fromBase.getD j id) := by
+      simp [List.getD, List.getElem?_eq_getElem hjl]
+    have hfe : c.T.fromBase.getD j id = c.T.convIdx 0 j := by
+      funext x; simp [UType.convIdx, hb0, hj0]
+    have h0n : 0 < c.n := hn0
+    have hslope : 0 < c.T.convIdx 0 j 1 - c.T.convIdx 0 j 0 := by
+      rw [Cert.convIdx_eq c h.1 h0n hjn, Cert.convIdx_eq c h.1 h0n hjn]
+      have := Cert.pair_slope_pos c h h0n hjn
+      simp only [Aff.eval]; linarith
+    have hcb : ∀ b, UType.convBound (c.T.convIdx 0 j) b = mapBound (c.T.convIdx 0 j) b := by
+      intro b; cases b <;> simp [UType.convBound, mapBound, hslope]
+    have hj' : ({ c.T with min := lo, max := hi } : UType).idx? u = some j := hj
+    simp only [UType.isInRange]
+    rw [if_neg hu, hj']
+    simp only [hf, hfe, hcb]
+
+/-- `is_in_range(values)` without a unit uses the limits as they are. -/
+theorem C06_in_range_none (T : UType) (xs : List Rat) :
+    T.isInRange xs none = .ok (UType.rangeCheck T.min T.max xs) := rfl
+
+/-- RANGE, meaning in the first unit: a value `x` (in unit `units[j]`) that is not below the converted
+    lower limit `r` corresponds to a first-unit value not below `r` by more than the round-trip bound, and
+    likewise for the upper limit: limits and values are compared in the same scale. -/
+theorem C06_in_range_base_units (c : Cert) (hc : c ∈ allCerts) {j : Nat} (hj : j < c.n) (r x : Rat) :
+    (c.T.convIdx 0 j r ≤ x → r - (2 / 100000) * |r| ≤ c.T.convIdx j 0 x) ∧
+    (x ≤ c.T.convIdx 0 j r → c.T.convIdx j 0 x ≤ r + (2 / 100000) * |r|) := by
+  have h0 : 0 < c.n := ((UType.wf_iff c.T).1 (C06_all_valid c hc).1.1).2.1
+  have hrt := abs_le.1 (C06_roundtrip c hc h0 hj r)
+  constructor
+  · intro hx
+    have := C06_conversion_monotone c hc hj h0 hx
+    linarith [hrt.1]
+  · intro hx
+    have := C06_conversion_monotone c hc hj h0 hx
+    linarith [hrt.2]
 
 /-- IP / SI TARGETS (index level, every type): the unit `to_ip` converts `units[i]` to is listed in
     `ip_units`, is a fixed point of the map (idempotent), and a unit already listed is left alone;
@@ -171,31 +246,76 @@ theorem C06_targets (c : Cert) (hc : c ∈ allCerts) {i : Nat} (hi : i < c.n) :
     (∃ j, c.T.siTarget[i]? = some j ∧ j < c.n ∧ c.T.units.getD j "" ∈ c.T.siUnits ∧
         c.T.siTarget[j]? = some j ∧ (c.T.units.getD i "" ∈ c.T.siUnits → j = i)) := by
   have h := (C06_all_valid c hc).2.2.2
-  simp only [UType.targetsOk, UType.targetOk, Bool.and_eq_true, List.all_eq_true, List.mem_range] at h
-  have hi' : i < c.T.n := hi
+  simp only [UType.targetsOk, Bool.and_eq_true] at h
+  exact ⟨UType.targetOk_spec c.T _ _ h.1 hi, UType.targetOk_spec c.T _ _ h.2 hi⟩
+
+/-- Within the round-trip bound. -/
+def Near (z x : Rat) : Prop := |z - x| ≤ (2 / 100000) * |x|
+
+/-- IP / SI TARGETS at the level of unit NAMES (`to_ip`; every rational base type, every listed unit `u`,
+    every value list): the call succeeds and returns a unit name `tgt` that the type lists both as a unit
+    and in `ip_units`; the values are untouched when `tgt = u` and otherwise are the conversion `u → tgt`
+    of `to_unit`; converting the result again changes nothing (idempotent, for any values); a unit already
+    listed in `ip_units` is returned as it is with the values as they are. -/
+theorem C06_to_ip_names (c : Cert) (hc : c ∈ allCerts) {u : String} (hu : u ∈ c.T.units) (xs : List Rat) :
+    ∃ i j tgt ys, c.T.idx? u = some i ∧ i < c.n ∧ j < c.n ∧ c.T.units[j]? = some tgt ∧
+      c.T.idx? tgt = some j ∧ tgt ∈ c.T.ipUnits ∧ c.T.toIp xs u = .ok (ys, tgt) ∧
+      ((j = i ∧ ys = xs ∧ tgt = u) ∨ (j ≠ i ∧ ys = xs.map (c.T.convIdx i j))) ∧
+      (∀ zs, c.T.toIp zs tgt = .ok (zs, tgt)) ∧ (u ∈ c.T.ipUnits → tgt = u ∧ ys = xs) := by
+  have h := C06_all_valid c hc
+  have ht := h.2.2.2
+  simp only [UType.targetsOk, Bool.and_eq_true] at ht
+  exact UType.toSys_listed c.T h.1.1 c.T.ipTarget c.T.ipUnits c.T.strictIp ht.1 hu xs
+
+/-- The same for `to_si` and `si_units`. -/
+theorem C06_to_si_names (c : Cert) (hc : c ∈ allCerts) {u : String} (hu : u ∈ c.T.units) (xs : List Rat) :
+    ∃ i j tgt ys, c.T.idx? u = some i ∧ i < c.n ∧ j < c.n ∧ c.T.units[j]? = some tgt ∧
+      c.T.idx? tgt = some j ∧ tgt ∈ c.T.siUnits ∧ c.T.toSi xs u = .ok (ys, tgt) ∧
+      ((j = i ∧ ys = xs ∧ tgt = u) ∨ (j ≠ i ∧ ys = xs.map (c.T.convIdx i j))) ∧
+      (∀ zs, c.T.toSi zs tgt = .ok (zs, tgt)) ∧ (u ∈ c.T.siUnits → tgt = u ∧ ys = xs) := by
+  have h := C06_all_valid c hc
+  have ht := h.2.2.2
+  simp only [UType.targetsOk, Bool.and_eq_true] at ht
+  exact UType.toSys_listed c.T h.1.1 c.T.siTarget c.T.siUnits c.T.strictSi ht.2 hu xs
+
+/-- REJECTION: `to_ip` / `to_si` of a type that checks the unit (every type whose `to_ip` is not the
+    plain `return values, from_unit`) raise ValueError for a unit the type does not list. -/
+theorem C06_to_ip_si_reject (T : UType) {u : String} (hu : u ∉ T.units) (xs : List Rat) :
+    (T.strictIp = true → T.toIp xs u = .error Err.value) ∧
+    (T.strictSi = true → T.toSi xs u = .error Err.value) := by
   constructor
-  · have := h.1 i hi'
-    cases ht : c.T.ipTarget[i]? with
-    | none => simp [ht] at this
-    | some j =>
-      simp only [ht, Bool.and_eq_true, decide_eq_true_eq, List.contains_iff_mem, beq_iff_eq,
-        Bool.or_eq_true, Bool.not_eq_true', beq_iff_eq] at this
-      refine ⟨j, rfl, this.1.1.1, this.1.1.2, this.1.2, ?_⟩
-      intro hm
-      rcases this.2 with hf | he
-      · exact absurd (List.contains_iff_mem.2 hm) (by rw [hf]; simp)
-      · exact he
-  · have := h.2 i hi'
-    cases ht : c.T.siTarget[i]? with
-    | none => simp [ht] at this
-    | some j =>
-      simp only [ht, Bool.and_eq_true, decide_eq_true_eq, List.contains_iff_mem, beq_iff_eq,
-        Bool.or_eq_true, Bool.not_eq_true', beq_iff_eq] at this
-      refine ⟨j, rfl, this.1.1.1, this.1.1.2, this.1.2, ?_⟩
-      intro hm
-      rcases this.2 with hf | he
-      · exact absurd (List.contains_iff_mem.2 hm) (by rw [hf]; simp)
-      · exact he
+  · intro h; unfold UType.toIp; rw [h]; exact UType.toSys_reject T _ hu xs
+  · intro h; unfold UType.toSi; rw [h]; exact UType.toSys_reject T _ hu xs
+
+/-- PHYSICAL MEANING of `to_ip` (same proof for `to_si` below): converting the values returned for the
+    unit `tgt` back to `u` with `to_unit` succeeds and returns every value within 2e-5 of the original. -/
+theorem C06_to_ip_back (c : Cert) (hc : c ∈ allCerts) {u : String} (hu : u ∈ c.T.units) (xs : List Rat) :
+    ∃ tgt ys zs, c.T.toIp xs u = .ok (ys, tgt) ∧ c.T.toUnit ys u tgt = .ok zs ∧ List.Forall₂ Near zs xs := by
+  obtain ⟨i, j, tgt, ys, hi, hin, hjn, _, hj, _, hr, hcase, _, _⟩ := C06_to_ip_names c hc hu xs
+  have hwf := (C06_all_valid c hc).1.1
+  rcases hcase with ⟨hji, hys, htu⟩ | ⟨_, hys⟩
+  · rw [hys, htu] at hr
+    refine ⟨u, xs, xs.map (c.T.convIdx i i), hr, UType.toUnit_listed c.T hwf hi hi xs, ?_⟩
+    exact UType.forall2_map_left (fun x => C06_same_unit c hc hin x) xs
+  · rw [hys] at hr
+    refine ⟨tgt, _, (xs.map (c.T.convIdx i j)).map (c.T.convIdx j i), hr,
+      UType.toUnit_listed c.T hwf hj hi _, ?_⟩
+    rw [List.map_map]
+    exact UType.forall2_map_left (fun x => C06_roundtrip c hc hin hjn x) xs
+
+theorem C06_to_si_back (c : Cert) (hc : c ∈ allCerts) {u : String} (hu : u ∈ c.T.units) (xs : List Rat) :
+    ∃ tgt ys zs, c.T.toSi xs u = .ok (ys, tgt) ∧ c.T.toUnit ys u tgt = .ok zs ∧ List.Forall₂ Near zs xs := by
+  obtain ⟨i, j, tgt, ys, hi, hin, hjn, _, hj, _, hr, hcase, _, _⟩ := C06_to_si_names c hc hu xs
+  have hwf := (C06_all_valid c hc).1.1
+  rcases hcase with ⟨hji, hys, htu⟩ | ⟨_, hys⟩
+  · rw [hys, htu] at hr
+    refine ⟨u, xs, xs.map (c.T.convIdx i i), hr, UType.toUnit_listed c.T hwf hi hi xs, ?_⟩
+    exact UType.forall2_map_left (fun x => C06_same_unit c hc hin x) xs
+  · rw [hys] at hr
+    refine ⟨tgt, _, (xs.map (c.T.convIdx i j)).map (c.T.convIdx j i), hr,
+      UType.toUnit_listed c.T hwf hj hi _, ?_⟩
+    rw [List.map_map]
+    exact UType.forall2_map_left (fun x => C06_roundtrip c hc hin hjn x) xs
 
 /-- COLLECTIONS: a successful `convert_to_unit(u)` (necessarily on a mutable collection) replaces
     values and unit label together and keeps the data type and the class: the new values are exactly
@@ -249,6 +369,300 @@ theorem C06_collection_meaning (k : Cert) (hk : k ∈ allCerts) (vals : List Rat
   refine ⟨i, j, ⟨k.T, v, vals.map (k.T.convIdx i j), imm⟩, hi, hj, ?_, ?_, rfl, rfl, rfl⟩
   · simp [Coll.toUnitCopy, Coll.convUnit, ht]
   · intro h; subst h; simp [Coll.convertToUnit, Coll.convUnit, ht]
+
+/-- COLLECTIONS, `convert_to_ip()` / `convert_to_si()` (mutable) and `to_ip()` / `to_si()` (copy, any
+    class): values and unit label are exactly the pair that the data type's `to_ip` / `to_si` returns for the
+    old values and the old label; data type and (im)mutability are kept. -/
+theorem C06_collection_ip_si_in_step (c c' : Coll) :
+    (c.convertToIp = .ok c' → c.immutable = false ∧ c.T.toIp c.values c.unit = .ok (c'.values, c'.unit) ∧
+        c'.T.name = c.T.name ∧ c'.immutable = c.immutable) ∧
+    (c.convertToSi = .ok c' → c.immutable = false ∧ c.T.toSi c.values c.unit = .ok (c'.values, c'.unit) ∧
+        c'.T.name = c.T.name ∧ c'.immutable = c.immutable) ∧
+    (c.toIpCopy = .ok c' → c.T.toIp c.values c.unit = .ok (c'.values, c'.unit) ∧
+        c'.T.name = c.T.name ∧ c'.immutable = c.immutable) ∧
+    (c.toSiCopy = .ok c' → c.T.toSi c.values c.unit = .ok (c'.values, c'.unit) ∧
+        c'.T.name = c.T.name ∧ c'.immutable = c.immutable) := by
+  have ip : c.convIp = .ok c' → c.T.toIp c.values c.unit = .ok (c'.values, c'.unit) ∧
+      c'.T.name = c.T.name ∧ c'.immutable = c.immutable := by
+    intro h
+    simp only [Coll.convIp] at h
+    cases hv : c.T.toIp c.values c.unit with
+    | error e => simp [hv] at h
+    | ok p => obtain ⟨v, w⟩ := p; simp only [hv, Except.ok.injEq] at h; subst h; exact ⟨rfl, rfl, rfl⟩
+  have si : c.convSi = .ok c' → c.T.toSi c.values c.unit = .ok (c'.values, c'.unit) ∧
+      c'.T.name = c.T.name ∧ c'.immutable = c.immutable := by
+    intro h
+    simp only [Coll.convSi] at h
+    cases hv : c.T.toSi c.values c.unit with
+    | error e => simp [hv] at h
+    | ok p => obtain ⟨v, w⟩ := p; simp only [hv, Except.ok.injEq] at h; subst h; exact ⟨rfl, rfl, rfl⟩
+  refine ⟨?_, ?_, ip, si⟩
+  · intro h
+    cases hi : c.immutable with
+    | true => simp [Coll.convertToIp, hi] at h
+    | false =>
+      simp only [Coll.convertToIp, hi, Bool.false_eq_true, if_false] at h
+      have := ip h; rw [hi] at this; exact ⟨rfl, this⟩
+  · intro h
+    cases hi : c.immutable with
+    | true => simp [Coll.convertToSi, hi] at h
+    | false =>
+      simp only [Coll.convertToSi, hi, Bool.false_eq_true, if_false] at h
+      have := si h; rw [hi] at this; exact ⟨rfl, this⟩
+
+/-- COLLECTIONS, physical meaning of `to_ip()` (any class) / `convert_to_ip()` (mutable) on a collection
+    whose unit `u` the type lists: it succeeds; the new label is a unit of the type listed in `ip_units`;
+    data type and (im)mutability are kept; doing it again changes nothing; and converting the result back to
+    `u` with `to_unit` returns every value within 2e-5 of the original one. -/
+theorem C06_collection_ip_meaning (k : Cert) (hk : k ∈ allCerts) (vals : List Rat) (imm : Bool) {u : String}
+    (hu : u ∈ k.T.units) :
+    ∃ c' c'', (⟨k.T, u, vals, imm⟩ : Coll).toIpCopy = .ok c' ∧
+      (imm = false → (⟨k.T, u, vals, imm⟩ : Coll).convertToIp = .ok c') ∧
+      c'.unit ∈ k.T.ipUnits ∧ c'.unit ∈ k.T.units ∧ c'.T.name = k.T.name ∧ c'.immutable = imm ∧
+      c'.toIpCopy = .ok c' ∧ (u ∈ k.T.ipUnits → c'.unit = u ∧ c'.values = vals) ∧
+      c'.toUnitCopy u = .ok c'' ∧ c''.unit = u ∧ List.Forall₂ Near c''.values vals := by
+  obtain ⟨i, j, tgt, ys, _, _, _, hjt, _, hts, hr, _, hidem, hfix⟩ := C06_to_ip_names k hk hu vals
+  obtain ⟨tgt', ys', zs, hr', hback, hnear⟩ := C06_to_ip_back k hk hu vals
+  rw [hr] at hr'
+  simp only [Except.ok.injEq, Prod.mk.injEq] at hr'
+  obtain ⟨rfl, rfl⟩ := hr'
+  refine ⟨⟨k.T, tgt, ys, imm⟩, ⟨k.T, u, zs, imm⟩, ?_, ?_, hts, List.mem_of_getElem? hjt, rfl, rfl, ?_,
+    fun h => ⟨(hfix h).1, (hfix h).2⟩, ?_, rfl, hnear⟩
+  · simp [Coll.toIpCopy, Coll.convIp, hr]
+  · intro h; subst h; simp [Coll.convertToIp, Coll.convIp, hr]
+  · simp [Coll.toIpCopy, Coll.convIp, hidem ys]
+  · simp [Coll.toUnitCopy, Coll.convUnit, hback]
+
+/-- The same for `to_si()` / `convert_to_si()` and `si_units`. -/
+theorem C06_collection_si_meaning (k : Cert) (hk : k ∈ allCerts) (vals : List Rat) (imm : Bool) {u : String}
+    (hu : u ∈ k.T.units) :
+    ∃ c' c'', (⟨k.T, u, vals, imm⟩ : Coll).toSiCopy = .ok c' ∧
+      (imm = false → (⟨k.T, u, vals, imm⟩ : Coll).convertToSi = .ok c') ∧
+      c'.unit ∈ k.T.siUnits ∧ c'.unit ∈ k.T.units ∧ c'.T.name = k.T.name ∧ c'.immutable = imm ∧
+      c'.toSiCopy = .ok c' ∧ (u ∈ k.T.siUnits → c'.unit = u ∧ c'.values = vals) ∧
+      c'.toUnitCopy u = .ok c'' ∧ c''.unit = u ∧ List.Forall₂ Near c''.values vals := by
+  obtain ⟨i, j, tgt, ys, _, _, _, hjt, _, hts, hr, _, hidem, hfix⟩ := C06_to_si_names k hk hu vals
+  obtain ⟨tgt', ys', zs, hr', hback, hnear⟩ := C06_to_si_back k hk hu vals
+  rw [hr] at hr'
+  simp only [Except.ok.injEq, Prod.mk.injEq] at hr'
+  obtain ⟨rfl, rfl⟩ := hr'
+  refine ⟨⟨k.T, tgt, ys, imm⟩, ⟨k.T, u, zs, imm⟩, ?_, ?_, hts, List.mem_of_getElem? hjt, rfl, rfl, ?_,
+    fun h => ⟨(hfix h).1, (hfix h).2⟩, ?_, rfl, hnear⟩
+  · simp [Coll.toSiCopy, Coll.convSi, hr]
+  · intro h; subst h; simp [Coll.convertToSi, Coll.convSi, hr]
+  · simp [Coll.toSiCopy, Coll.convSi, hidem ys]
+  · simp [Coll.toUnitCopy, Coll.convUnit, hback]
+
+/-! ### Area normalisation and time aggregation -/
+
+/-- NORMALISE / AGGREGATE, values: dividing by a non-zero area and multiplying by it again (or the other
+    way round) returns every value exactly. -/
+theorem C06_area_values_inverse (area : Rat) (h : area ≠ 0) (vals : List Rat) :
+    (vals.map (· / area)).map (· * area) = vals ∧ (vals.map (· * area)).map (· / area) = vals := by
+  constructor
+  · rw [List.map_map]; conv_rhs => rw [← List.map_id vals]
+    apply List.map_congr_left; intro x _; simp [Function.comp, div_mul_cancel₀ x h]
+  · rw [List.map_map]; conv_rhs => rw [← List.map_id vals]
+    apply List.map_congr_left; intro x _; simp [Function.comp, mul_div_cancel_right₀ x h]
+
+theorem Reg.find_name (R : Reg) {n : String} {T : UType} (h : R.find n = some T) : T.name = n := by
+  have := List.find?_some h
+  simpa using this
+
+/-- `normalize_by_area` moves values, label and data type together: every value is divided by the area, the
+    label gets the area unit appended, the data type becomes the `_normalized_type` of the old one (which must
+    list the new label), the class (mutable / immutable) stays; a zero area or a type without normalised type
+    is refused. -/
+theorem C06_normalize_in_step (R : Reg) (c c' : Coll) (area : Rat) (au : String)
+    (h : R.normalizeByArea c area au = .ok c') :
+    area ≠ 0 ∧ c'.values = c.values.map (· / area) ∧ c'.unit = Reg.normUnit c.unit au ∧
+    R.normalized.lookup c.T.name = some c'.T.name ∧ c'.T.acceptable c'.unit = true ∧
+    c'.immutable = c.immutable := by
+  unfold Reg.normalizeByArea at h
+  cases hn : R.normalized.lookup c.T.name with
+  | none => simp [hn] at h
+  | some nt =>
+    simp only [hn] at h
+    by_cases ha : area = 0
+    · simp [ha] at h
+    · simp only [ha, if_false] at h
+      cases hf : R.find nt with
+      | none => simp [hf] at h
+      | some T' =>
+        simp only [hf] at h
+        by_cases hacc : T'.acceptable (Reg.normUnit c.unit au) = true
+        · simp only [hacc, if_true, Except.ok.injEq] at h
+          subst h
+          exact ⟨ha, rfl, rfl, by rw [Reg.find_name R hf], hacc, rfl⟩
+        · simp [hacc] at h
+
+/-- `aggregate_by_area` likewise multiplies every value by the area, strips the area unit from the label and
+    goes to the type found by the reverse look-up (`Reg.aggTarget`), which must list the new label. -/
+theorem C06_aggregate_in_step (R : Reg) (c c' : Coll) (area : Rat) (au : String)
+    (h : R.aggregateByArea c area au = .ok c') :
+    c'.values = c.values.map (· * area) ∧ c'.unit = Reg.aggUnit c.unit au ∧
+    R.aggTarget c.T.name = some c'.T.name ∧ c'.T.acceptable c'.unit = true ∧ c'.immutable = c.immutable := by
+  unfold Reg.aggregateByArea at h
+  cases hn : R.aggTarget c.T.name with
+  | none => simp [hn] at h
+  | some b =>
+    simp only [hn] at h
+    cases hf : R.find b with
+    | none => simp [hf] at h
+    | some T' =>
+      simp only [hf] at h
+      by_cases hacc : T'.acceptable (Reg.aggUnit c.unit au) = true
+      · simp only [hacc, if_true, Except.ok.injEq] at h
+        subst h
+        exact ⟨rfl, rfl, by rw [Reg.find_name R hf], hacc, rfl⟩
+      · simp [hacc] at h
+
+/-- NORMALISE then AGGREGATE by the same area gives back exactly the values (the label and type round trip is
+    a finite fact about strings: `#guard` below and the correspondence op `area`). -/
+theorem C06_normalize_aggregate_inverse (R : Reg) (c c' c'' : Coll) (area : Rat) (au : String)
+    (h1 : R.normalizeByArea c area au = .ok c') (h2 : R.aggregateByArea c' area au = .ok c'') :
+    c''.values = c.values ∧ c''.unit = Reg.aggUnit (Reg.normUnit c.unit au) au ∧ c''.immutable = c.immutable := by
+  obtain ⟨ha, hv, hu, _, _, hi⟩ := C06_normalize_in_step R c c' area au h1
+  obtain ⟨hv2, hu2, _, _, hi2⟩ := C06_aggregate_in_step R c' c'' area au h2
+  refine ⟨?_, by rw [hu2, hu], by rw [hi2, hi]⟩
+  rw [hv2, hv]; exact (C06_area_values_inverse area ha c.values).1
+
+/-- Label and type round trip of normalise/aggregate for every type with a normalised type, every unit and
+    the area units m2 / ft2 (compile-time test on the regenerated tables, not a theorem: the kernel does not
+    evaluate `String.replace`). -/
+def areaLabelsOk : Bool :=
+  Gen.Units.normalizedType.all fun (t, nt) =>
+    match (Gen.Units.reg 3).find t, (Gen.Units.reg 3).find nt with
+    | some T, some N => T.units.all fun u => ["m2", "ft2"].all fun au =>
+        !(N.acceptable (Reg.normUnit u au)) || ((Reg.aggUnit (Reg.normUnit u au) au == u)
+          && (Gen.Units.reg 3).aggTarget nt == some (if t = "ActivityLevel" then "Power" else t))
+    | _, _ => false
+#guard areaLabelsOk
+
+/-- TIME AGGREGATION, values: multiplying by `factor / timestep` and dividing by it again is exact. -/
+theorem C06_time_values_inverse (f ts : Rat) (hf : f ≠ 0) (hts : ts ≠ 0) (vals : List Rat) :
+    (vals.map (· * (f / ts))).map (· / (f / ts)) = vals := by
+  have h : f / ts ≠ 0 := div_ne_zero hf hts
+  exact (C06_area_values_inverse (f / ts) h vals).2
+
+/-- `to_time_aggregated`: the collection is first converted to the first unit of its type (`to_unit`), then
+    every value is multiplied by `_time_aggregated_factor / timestep`; type and label become the aggregated
+    type and its first unit; class kept.  (That the factor is 3600 s of the rate in SI terms is the generated
+    family `C06_timefactor_*`.) -/
+theorem C06_time_aggregated_in_step (R : Reg) (c c' : Coll) (ts : Rat) (h : R.timeAggregated c ts = .ok c') :
+    ∃ tt f c1, R.timeAgg.lookup c.T.name = some (tt, f) ∧ c.toUnitCopy (c.T.units.getD 0 "") = .ok c1 ∧
+      c'.values = c1.values.map (· * (f / ts)) ∧ c'.T.name = tt ∧ c'.unit = c'.T.units.getD 0 "" ∧
+      c'.immutable = c.immutable := by
+  unfold Reg.timeAggregated at h
+  cases hn : R.timeAgg.lookup c.T.name with
+  | none => simp [hn] at h
+  | some p =>
+    obtain ⟨tt, f⟩ := p
+    simp only [hn] at h
+    cases hc : c.toUnitCopy (c.T.units[0]?.getD "") with
+    | error e => simp [hc] at h
+    | ok c1 =>
+      rw [show c.T.units.getD 0 "" = c.T.units[0]?.getD "" from rfl] at h
+      simp only [hc] at h
+      cases hf : R.find tt with
+      | none => simp [hf] at h
+      | some T' =>
+        simp only [hf, Except.ok.injEq] at h
+        subst h
+        have hi : c1.immutable = c.immutable := (C06_collection_copy_in_step c _ c1 hc).2.2.2.1
+        exact ⟨tt, f, c1, rfl, hc, rfl, Reg.find_name R hf, rfl, hi⟩
+
+/-- `to_time_rate_of_change`: the same with a division, going to the base type found by the reverse look-up. -/
+theorem C06_time_rate_in_step (R : Reg) (c c' : Coll) (ts : Rat) (h : R.timeRateOfChange c ts = .ok c') :
+    ∃ b f c1, R.rateTarget c.T.name = some (b, f) ∧ c.toUnitCopy (c.T.units.getD 0 "") = .ok c1 ∧
+      c'.values = c1.values.map (· / (f / ts)) ∧ c'.T.name = b ∧ c'.unit = c'.T.units.getD 0 "" ∧
+      c'.immutable = c.immutable := by
+  unfold Reg.timeRateOfChange at h
+  cases hn : R.rateTarget c.T.name with
+  | none => simp [hn] at h
+  | some p =>
+    obtain ⟨b, f⟩ := p
+    simp only [hn] at h
+    cases hc : c.toUnitCopy (c.T.units[0]?.getD "") with
+    | error e => simp [hc] at h
+    | ok c1 =>
+      rw [show c.T.units.getD 0 "" = c.T.units[0]?.getD "" from rfl] at h
+      simp only [hc] at h
+      cases hf : R.find b with
+      | none => simp [hf] at h
+      | some T' =>
+        simp only [hf, Except.ok.injEq] at h
+        subst h
+        have hi : c1.immutable = c.immutable := (C06_collection_copy_in_step c _ c1 hc).2.2.2.1
+        exact ⟨b, f, c1, rfl, hc, rfl, Reg.find_name R hf, rfl, hi⟩
+
+/-! ### The `_is_numeric` assertion and GenericType -/
+
+/-- `_is_numeric`: when the first value is not a number, `to_unit` fails with the AssertionError before any
+    unit is looked at (listed or not). -/
+theorem C06_numeric_guard (T : UType) (vs : List (Option Rat)) (u f : String) :
+    T.toUnitRaw (none :: vs) u f = .error Err3.assert := by
+  simp [UType.toUnitRaw, UType.isNumeric]
+
+/-- Error of the number-only model seen through the model with non-numbers. -/
+def liftErr3 : Err → Err3
+  | .value => .value
+  | .attr => .attr
+
+def liftRes (r : Except Err (List Rat)) : Except Err3 (List (Option Rat)) :=
+  match r with
+  | .ok l => .ok (l.map some)
+  | .error e => .error (liftErr3 e)
+
+/-- On lists of numbers the guarded `_to_unit_base` is the one all other theorems speak about. -/
+theorem C06_numeric_all_numbers (T : UType) (xs : List Rat) (u f : String) :
+    T.toUnitRaw (xs.map some) u f = liftRes (T.toUnit xs u f) := by
+  have hnum : UType.isNumeric (xs.map some) = true := by cases xs <;> simp [UType.isNumeric]
+  have hall : ∀ l : List Rat, (l.map some).all Option.isSome = true := by intro l; simp
+  have hleg : ∀ (fns : List (Rat → Rat)) (ar : List Bool) (w : String) (l : List Rat),
+      T.legRaw fns ar w (l.map some) =
+        liftRes (if w = T.base then .ok l else match T.idx? w with
+          | none => .error Err.value
+          | some i => match fns[i]? with
+            | none => .error Err.attr
+            | some g => .ok (l.map g)) := by
+    intro fns ar w l
+    unfold UType.legRaw
+    by_cases hw : w = T.base
+    · simp [hw, liftRes]
+    · simp only [hw, if_false]
+      cases T.idx? w with
+      | none => simp [liftRes, liftErr3]
+      | some i =>
+        simp only []
+        cases hfi : fns[i]? with
+        | none => simp [liftRes, liftErr3]
+        | some g => simp [liftRes, List.map_map, Function.comp_def]
+  unfold UType.toUnitRaw UType.toUnit
+  simp only [hnum, Bool.not_true, Bool.false_eq_true, if_false]
+  rw [hleg T.toBase T.toBaseArith f xs]
+  show _ = liftRes (match T.legFrom f xs with | .error e => .error e | .ok v1 => T.legTo u v1)
+  unfold UType.legFrom
+  cases hr : (if f = T.base then (Except.ok xs : Except Err (List Rat)) else match T.idx? f with
+          | none => .error Err.value
+          | some i => match T.toBase[i]? with
+            | none => .error Err.attr
+            | some g => .ok (xs.map g)) with
+  | error e => simp [liftRes]
+  | ok v1 =>
+    simp only [liftRes]
+    rw [hleg T.fromBase T.fromBaseArith u v1]
+    rfl
+
+/-- GenericType: `to_unit` is not implemented (raises for any units, also for the unit it holds);
+    `to_ip` / `to_si` hand values and unit back untouched; the Header accepts exactly the type's own unit;
+    `is_in_range` with another unit is rejected. -/
+theorem C06_generic (g : Generic) (xs : List Rat) (u f : String) :
+    g.toUnit xs u f = .error GErr.notimpl ∧ g.toSys xs f = (xs, f) ∧ (g.acceptable u = true ↔ u = g.unit) ∧
+    (u ≠ g.unit → g.isInRange xs (some u) = .error GErr.value) ∧
+    g.isInRange xs (some g.unit) = g.isInRange xs none := by
+  refine ⟨rfl, rfl, by simp [Generic.acceptable], ?_, by simp [Generic.isInRange]⟩
+  intro h; simp [Generic.isInRange, h]
 
 /-! ### Angle (formulas in π): symbolic, over any field of characteristic 0 and any non-zero π -/
 
